@@ -115,26 +115,7 @@ def check(ctx, rep):
         rep.missing('R05.a', 'crux_core / crux_time facts')
         return
     # ---- R05.a
-    fs = [f for f in hand_written_polls(core) if path_matches(f.assoc.get('self_adt'), 'crux_core::command::Command')]
-    if len(fs) != 1:
-        rep.missing('R05.a', '<Command as Stream>::poll_next')
-    else:
-        f = fs[0]
-        cx = cx_param(f)
-        regs = waker_capture_blocks(f, cx)
-        from rules.common import Summaries
-        sm = Summaries([core])
-        runs = sm.sites(f, ['crux_core::command::Command::run_until_settled'], 'must')
-        reads = sm.sites(f, ['crossbeam_channel::channel::Receiver::try_recv', 'crux_core::command::Command::is_done'], 'may')
-        rep.expect('R05.a', len(regs) >= 1 and runs and all(any(f.dominates(r, x) and r != x for r in regs) for x in runs),
-                   'register-before-run', 'AtomicWaker::register(cx.waker()) dominates run_until_settled',
-                   'Command::poll_next runs tasks before registering the host\'s waker (a wake during the run would be lost)')
-        rep.expect('R05.a', len(reads) >= 3 and all(any(f.dominates(r, x) for r in regs) for x in reads), 'register-before-look',
-                   'the registration dominates the reads of the event and effect channels and is_done',
-                   'Command::poll_next looks at its channels before registering the host\'s waker')
-        rep.expect('R05.a', runs and all(any(f.dominates(r, x) for r in runs) for x in reads), 'run-before-look',
-                   'run_until_settled dominates the reads of the channels',
-                   'Command::poll_next reads its channels without having run its tasks')
+    check_register_before_look(rep, 'R05.a', core)
     # ---- R05.b
     wake_impls = {}
     for c in (core, time):
@@ -215,6 +196,31 @@ def check(ctx, rep):
                    'legacy %s resolve closure can deliver a value without waking the stored waker' % mod)
     rep.assume('futures::channel::mpsc wakes its registered receiver task on send and on sender drop (third-party contract)')
     rep.assume('AtomicWaker::register/wake pairing is race-free (futures contract)')
+
+
+def check_register_before_look(rep, rid, core):
+    """Command::poll_next registers the host's waker before it runs tasks or looks at its queues (a wake-up arriving from another
+    thread between the look and a later registration would find no waker and be lost)"""
+    fs = [f for f in hand_written_polls(core) if path_matches(f.assoc.get('self_adt'), 'crux_core::command::Command')]
+    if len(fs) != 1:
+        rep.missing(rid, '<Command as Stream>::poll_next')
+    else:
+        f = fs[0]
+        cx = cx_param(f)
+        regs = waker_capture_blocks(f, cx)
+        from rules.common import Summaries
+        sm = Summaries([core])
+        runs = sm.sites(f, ['crux_core::command::Command::run_until_settled'], 'must')
+        reads = sm.sites(f, ['crossbeam_channel::channel::Receiver::try_recv', 'crux_core::command::Command::is_done'], 'may')
+        rep.expect(rid, len(regs) >= 1 and runs and all(any(f.dominates(r, x) and r != x for r in regs) for x in runs),
+                   'register-before-run', 'AtomicWaker::register(cx.waker()) dominates run_until_settled',
+                   'Command::poll_next runs tasks before registering the host\'s waker (a wake during the run would be lost)')
+        rep.expect(rid, len(reads) >= 3 and all(any(f.dominates(r, x) for r in regs) for x in reads), 'register-before-look',
+                   'the registration dominates the reads of the event and effect channels and is_done',
+                   'Command::poll_next looks at its channels before registering the host\'s waker')
+        rep.expect(rid, runs and all(any(f.dominates(r, x) for r in runs) for x in reads), 'run-before-look',
+                   'run_until_settled dominates the reads of the channels',
+                   'Command::poll_next reads its channels without having run its tasks')
 
 
 def check_pending_wakers(rep, rid, core, time):
